@@ -22,7 +22,8 @@ func Harden(next http.Handler) http.Handler {
 		origin := r.Header.Get("Origin")
 
 		isSame := origin == "" || (site == "" || site == "same-origin" || site == "same-site")
-		allowed := isSame
+		// A request the browser itself declares cross-site is refused whether or not it carries an Origin.
+		allowed := isSame && site != "cross-site"
 
 		if !allowed {
 			slog.Warn("Cross-site request blocked", "method", r.Method, "path", r.URL.Path, "remote", r.RemoteAddr, "origin", origin, "site", site)
